@@ -1,5 +1,6 @@
 import SleapVerif.Lemmas.ArchAll
 import SleapVerif.Gen.TranslatedArch
+import SleapVerif.Model.Grid
 /-!
 # C14 — every valid model configuration yields outputs of the contracted shape
 
@@ -59,13 +60,28 @@ theorem head_in_channels_eq_decoder_out (f r D up i : Nat) (hr : 1 ≤ r) (hup :
 example : headIn ⟨2, 1⟩ (scale 16 ⟨2, 1⟩ (4 : Nat)) 3 (some 1) = scale 16 ⟨2, 1⟩ ((4 : Int) - 1 - 1) := by decide
 
 /-- `Model.forward` picks, for every head, the decoder output whose label is the head's stride,
-    and the head's output has the head's channel count (`parts`, `1`, `2·edges`, `classes`). -/
+    and the head's output has the head's channel count.  `hs`, `ws` are the stage sizes (one per
+    decoder output, as `forward` builds them: hypotheses `hlh`, `hlw`), so the look-up is a genuine
+    element of the lists (no `getD` default). -/
 theorem selected_stride_eq_head_stride (strides chans hs ws : List Nat) (heads : List Head) (hins : List Nat)
     (outs : List (Nat × Nat × Nat)) (hlen : heads.length = hins.length)
+    (hlh : hs.length = strides.length) (hlw : ws.length = strides.length)
     (h : headOuts strides chans hs ws heads hins = .ok outs) :
     outs.length = heads.length ∧ ∀ p ∈ List.zip heads outs,
-      ∃ i, ∃ _ : i < strides.length, strides[i] = p.1.os ∧ p.2 = (p.1.ch, hs.getD i 0, ws.getD i 0) :=
-  headOuts_spec strides chans hs ws heads hins outs hlen h
+      ∃ i, ∃ hi : i < strides.length, strides[i] = p.1.os ∧
+        p.2 = (p.1.ch, hs[i]'(hlh ▸ hi), ws[i]'(hlw ▸ hi)) := by
+  obtain ⟨h1, h2⟩ := headOuts_spec strides chans hs ws heads hins outs hlen h
+  refine ⟨h1, fun p hp => ?_⟩
+  obtain ⟨i, hi, hs1, hs2⟩ := h2 p hp
+  refine ⟨i, hi, hs1, ?_⟩
+  rw [hs2]
+  have e1 : hs.getD i 0 = hs[i]'(hlh ▸ hi) := by
+    simp [List.getD_eq_getElem?_getD, List.getElem?_eq_getElem (hlh ▸ hi)]
+  have e2 : ws.getD i 0 = ws[i]'(hlw ▸ hi) := by
+    simp [List.getD_eq_getElem?_getD, List.getElem?_eq_getElem (hlw ▸ hi)]
+  rw [e1, e2]
+
+example : headOuts [4, 2] [8, 16] [4, 8] [6, 12] [⟨2, 3⟩] [16] = .ok [(3, 8, 12)] := by decide
 
 /-- one output per head, with exactly the head's channels -/
 theorem output_channels (strides chans hs ws : List Nat) (heads : List Head) (hins : List Nat)
@@ -142,9 +158,10 @@ theorem up_interpolate_irrelevant (c : Cfg) (h : wellFormed { c with upInterp :=
 def ArchGridFull : Prop := ∀ c, inGrid c = true → docValid c = true → wellFormed c = true
 
 /-- **The grid theorem** for the tree as it is now (`inGrid` requires `fixMid = fixWrap = true`), under
-    the extra hypothesis `supported`: UNet needs `convs_per_block ≥ 2`; the ConvNeXt / Swin wrappers
-    need `filters_rate = 2`.  (`middle_block = False` with any rate and wrapper
-    `output_stride > stem_patch_stride` are covered since the two fixes.) -/
+    the extra hypothesis `supported`: UNet needs `convs_per_block ≥ 2` or (`convs_per_block = 1`, `filters_rate = 1`
+    and a stem); the ConvNeXt / Swin wrappers need `filters_rate = 2` and `max_stride = 8·stem_patch_stride`.
+    Each excluded region is a `known` finding with a counterexample below.  (`middle_block = False`
+    with any rate and wrapper `output_stride > stem_patch_stride` are covered since the two fixes.) -/
 theorem arch_grid_ok (c : Cfg) (hin : inGrid c = true) (hdoc : docValid c = true)
     (hsup : supported c = true) : wellFormed c = true := grid_wellFormed c hin hdoc hsup
 
@@ -164,6 +181,9 @@ def exampleWrapCfg : Cfg :=
     fixMid := true, fixWrap := true }
 
 example : inGrid exampleCfg = true ∧ docValid exampleCfg = true ∧ supported exampleCfg = true := by decide
+/-- `convs_per_block = 1` is inside the theorem when `filters_rate = 1` and a stem is configured -/
+example : let c : Cfg := { exampleCfg with cpb := 1, rate := ⟨1, 1⟩ }
+    inGrid c = true ∧ docValid c = true ∧ supported c = true := by decide
 example : inGrid exampleWrapCfg = true ∧ docValid exampleWrapCfg = true ∧ supported exampleWrapCfg = true := by
   decide
 
@@ -215,12 +235,52 @@ theorem arch_contract_stem_kernel (c : Cfg) (hf : c.fam ≠ .unet) (h4 : 2 ≤ c
     exact grid_wellFormed { c with stemKernel := 4 } hin hdoc hsup
   exact run_of_wellFormed c hw a b ha hb fresh
 
+example : let c : Cfg := { exampleWrapCfg with stemKernel := 3 }
+    c.fam ≠ .unet ∧ 2 ≤ c.stem ∧ (2 < c.stemKernel ∧ c.stemKernel ≤ c.stem + 2) ∧
+      inGrid { c with stemKernel := 4 } = true ∧ docValid c = true ∧ supported c = true := by decide
+
 /-- a stem kernel outside that range (here 2 and 7 with stride 2) is rejected loudly in forward -/
 theorem stem_kernel_invalid_rejected :
     run { exampleWrapCfg with stemKernel := 2 } true 32 32 = .err .runtime ∧
       run { exampleWrapCfg with stemKernel := 7 } true 32 32 = .err .runtime ∧
       inGrid exampleWrapCfg = true := by
   decide +kernel
+
+/-! ## the data pipeline's target shapes -/
+
+/-- **targets_shape_match**: under the hypotheses of `arch_contract` every head's output has exactly the
+    spatial shape of the sampling grid the data pipeline uses for that head's targets —
+    `Grid.gridLen (a·S) stride × Grid.gridLen (b·S) stride` = `len(arange(0, size, stride))` per axis, the
+    shape of C01 `cm_shape` (confidence maps, `Props/C01.lean`) and of C05's PAF grids, which are stated over
+    the same `Grid.gridLen`; channels `parts | 1 | 2·edges` are `output_channels`.  (That the real
+    `generate_confmaps` / `generate_multiconfmaps` / `generate_pafs` and the legacy DataPipes produce
+    that grid — also for empty and all-NaN frames — is checked by the harness oracle, and proved
+    about their models in C01 / C05.) -/
+theorem targets_shape_match (c : Cfg) (hin : inGrid c = true) (hdoc : docValid c = true) (hsup : supported c = true)
+    (a b : Nat) (ha : 0 < a) (hb : 0 < b) (fresh : Bool) :
+    ∃ f, run c fresh (a * c.realMaxStride) (b * c.realMaxStride) = .ok f ∧
+      f.outs = c.heads.map fun hd =>
+        (hd.ch, Grid.gridLen (a * c.realMaxStride) hd.os, Grid.gridLen (b * c.realMaxStride) hd.os) := by
+  have hw := grid_wellFormed c hin hdoc hsup
+  obtain ⟨f, hf, ho⟩ := run_of_wellFormed c hw a b ha hb fresh
+  refine ⟨f, hf, ?_⟩
+  rw [ho, contract]
+  apply List.map_congr_left
+  intro hd hhd
+  obtain ⟨hpos, q, hq⟩ := wellFormed_head_dvd c hw hd hhd
+  have key : ∀ m, Grid.gridLen (m * c.realMaxStride) hd.os = m * c.realMaxStride / hd.os := by
+    intro m
+    unfold Grid.gridLen
+    rw [hq]
+    have e1 : m * (hd.os * q) + hd.os - 1 = (hd.os - 1) + hd.os * (m * q) := by
+      have : m * (hd.os * q) = hd.os * (m * q) := by
+        rw [← Nat.mul_assoc, Nat.mul_comm m hd.os, Nat.mul_assoc]
+      omega
+    have e2 : m * (hd.os * q) = hd.os * (m * q) := by
+      rw [← Nat.mul_assoc, Nat.mul_comm m hd.os, Nat.mul_assoc]
+    rw [e1, e2, Nat.add_mul_div_left _ _ hpos, Nat.mul_div_cancel_left _ hpos,
+      Nat.div_eq_of_lt (by omega), Nat.zero_add]
+  rw [key a, key b]
 
 /-! ## pooling state and call histories -/
 
@@ -278,6 +338,38 @@ theorem arch_grid_full_false : ¬ ArchGridFull := by
     arch_full_counterexample_convs_per_block.2.1
   rw [arch_full_counterexample_convs_per_block.2.2.2] at this
   cases this
+
+def witnessWrapperFiltersRate : Cfg :=
+  { fam := .swint, variant := 0, filters := 0, rate := ⟨3, 2⟩, maxStride := 16, bos := 2, stem := 2,
+    cpb := 2, middle := true, upInterp := true, inCh := 1, heads := [⟨2, 1⟩],
+    fixMid := true, fixWrap := true }
+
+/-- F-C14-wrapper-filters-rate: a ConvNeXt / Swin wrapper with `filters_rate ≠ 2` (here Swin-T, 3/2) is
+    documented-valid (docs/config.md puts no restriction on `filters_rate`) but forward raises:
+    the encoder doubles channels per stage while the decoder is sized from `filters_rate`. -/
+theorem arch_full_counterexample_wrapper_filters_rate :
+    inGrid witnessWrapperFiltersRate = true ∧ docValid witnessWrapperFiltersRate = true ∧
+      run witnessWrapperFiltersRate true 32 32 = .err .runtime ∧
+      run { witnessWrapperFiltersRate with rate := ⟨1, 1⟩, fam := .convnext } true 32 32 = .err .runtime ∧
+      wellFormed witnessWrapperFiltersRate = false := by
+  decide +kernel
+
+def witnessWrapperMaxStride : Cfg :=
+  { fam := .convnext, variant := 0, filters := 0, rate := ⟨2, 1⟩, maxStride := 16, bos := 4, stem := 4,
+    cpb := 2, middle := true, upInterp := true, inCh := 1, heads := [⟨4, 1⟩],
+    fixMid := true, fixWrap := true }
+
+/-- F-C14-wrapper-max-stride: the wrappers ignore `config.max_stride` (documented as "always 16"); with
+    `stem_patch_stride = 4` the real stride is 32 and inputs that are multiples of the configured 16 but
+    not of 32 (16×16, 48×48, 32×48) raise, while 32×32 works. -/
+theorem arch_full_counterexample_wrapper_max_stride :
+    inGrid witnessWrapperMaxStride = true ∧ docValid witnessWrapperMaxStride = true ∧
+      supported witnessWrapperMaxStride = false ∧
+      run witnessWrapperMaxStride true 16 16 = .err .runtime ∧
+      run witnessWrapperMaxStride true 48 48 = .err .runtime ∧
+      run witnessWrapperMaxStride true 32 48 = .err .runtime ∧
+      (match run witnessWrapperMaxStride true 32 32 with | .ok f => f.outs == [(1, 8, 8)] | _ => false) = true := by
+  decide +kernel
 
 /-! ## the two repaired defects, recorded about the model *as it was* (flags off) -/
 
